@@ -117,6 +117,22 @@ def run(chk, repo, tier):
                 badc.append(f"returns {show(pth.value)[:120]} on path {pd}")
         chk.ob("C17.R2", ff.qualname, f"multiply(P, {nm}) on the optimized BLS curve module, on every path",
                not badc and bool(cpaths) and repo.is_func(cmul, f"{OC}.multiply"), "; ".join(badc[:2]) or f"{len(cpaths)} path(s)", ff.where)
+    # the wrappers hash_to_curve exports under the RFC's names
+    H2C = "py_ecc.bls.hash_to_curve"
+    hm = repo.module(H2C)
+    for nm, const, cn in (("clear_cofactor_G1", BLS["h_eff_g1"], "H_EFF_G1"), ("clear_cofactor_G2", BLS["h_eff_g2"], "H_EFF_G2")):
+        if nm not in hm.bindings:
+            continue
+        try:
+            fobj = Interp(w).eval_global(hm, nm)
+        except AnalysisError as e:
+            chk.ob("C17.R2", f"{H2C}.{nm}", f"multiply(P, {cn})", False, f"not resolvable: {e}", hm.relpath)
+            continue
+        wantc = Term("multiply", (_hashable(P), const), "point")
+        wpaths = enumerate_paths(w, lambda it, fobj=fobj: it.call(fobj, [P], {}, None), summaries=csumm)
+        badw = [f"returns {show(p_.value)[:120]}" if p_.outcome == "return" else f"raises {p_.value.clsname()}"
+                for p_ in wpaths if p_.outcome != "return" or p_.value is not wantc]
+        chk.ob("C17.R2", f"{H2C}.{nm}", f"multiply(P, {cn}) on every path", not badw and bool(wpaths), "; ".join(badw[:2]), hm.relpath)
     # ---- orders
     p, rr, t, h1, h2 = BLS["p"], BLS["r"], BLS["t"], BLS["h1"], BLS["h2"]
     chk.ob("C17.R3", "oracle", "#E(F_p) = p + 1 − t = h1·r, t = x + 1 (Hasse: t² ≤ 4p)", p + 1 - t == h1 * rr and t * t <= 4 * p, "", "vstatic/spec/params.py")
